@@ -20,7 +20,7 @@ Inductive fam_rel (l l' : list iobuf) : Prop :=
 Lemma vstep_fam op st : wf_st st ->
   fam_rel (v_rd st) (v_rd (snd (vstep op st))) /\ fam_rel (v_wr st) (v_wr (snd (vstep op st))).
 Proof.
-  intros Hwf. pose proof Hwf as [Hr Hw]. destruct op as [i n|i n|i count sink|i off|i data|i datas|i count src|i off|i];
+  intros Hwf. pose proof Hwf as [Hr Hw]. destruct op as [i n|i n|i count sink|i off|i count sink|i count src|i data|i datas|i count src|i off|i];
     cbn [vstep].
   - destruct (nth_error (v_rd st) i) as [b|] eqn:E; [|split; apply fr_same; reflexivity].
     pose proof (nth_error_Forall _ _ _ _ Hr E) as Hb.
@@ -42,6 +42,16 @@ Proof.
     + rewrite (Hno H). cbn [snd]. split; apply fr_same; reflexivity.
     + destruct (Hok H) as [a [o [H1 [Fa [Fo [Ca [Co _]]]]]]]. rewrite H1. cbn [snd v_rd v_wr].
       split; [eapply fr_split; eauto|apply fr_same; reflexivity].
+  - destruct (nth_error (v_rd st) i) as [b|] eqn:E; [|split; apply fr_same; reflexivity].
+    pose proof (nth_error_Forall _ _ _ _ Hr E) as Hb. unfold rd_read_exact_to.
+    destruct (rd_read_exact_to_loop_any (S (N.to_nat count)) count sink (v_mem st) b [] Hb) as [k [Ha _]].
+    destruct (rd_read_exact_to_loop (S (N.to_nat count)) count sink (v_mem st) b []) as [r b'] eqn:E2. cbn [snd v_rd v_wr] in *.
+    split; [eapply fr_adv; eauto|apply fr_same; reflexivity].
+  - destruct (nth_error (v_wr st) i) as [b|] eqn:E; [|split; apply fr_same; reflexivity].
+    pose proof (nth_error_Forall _ _ _ _ Hw E) as Hb.
+    destruct (vw_write_all_from_any count src (v_mem st) (v_dirty st) b Hb) as [k [log H]].
+    destruct (vw_write_all_from count src (v_mem st) (v_dirty st) b) as [[[r m'] d'] b']. cbn [snd v_rd v_wr].
+    destruct H as [Ha _]. split; [apply fr_same; reflexivity|eapply fr_adv; eauto].
   - destruct (nth_error (v_wr st) i) as [b|] eqn:E; [|split; apply fr_same; reflexivity].
     pose proof (nth_error_Forall _ _ _ _ Hw E) as Hb.
     destruct (vw_write_any data (v_mem st) (v_dirty st) b Hb) as [k [log H]].
